@@ -208,6 +208,44 @@ def check_case(ctx, case):
                     ctx.unexpected(o, "magnitude_counts_region_bound_after_explicit")
                 elif numpy.asarray(o.value).shape != want_own.shape or not numpy.array_equal(numpy.asarray(o.value), want_own):
                     ctx.violation("region_bound_magnitude_counts_wrong_after_explicit_call", {"got": numpy.asarray(o.value).tolist()[:8], "want": want_own.tolist()[:8]})
+    # ---- caller-supplied tolerance: events a fraction of tol below an edge. Which of the two adjacent bins they land in is the
+    # tolerance's business; the identities (total, marginal over space == magnitude histogram, region-bound == explicit bins) and
+    # "every other event stays where it was" are not.
+    tol = case.get("tol")
+    if tol and n and not outside and not below and len(edges) >= 2 and (bound or not other):
+        js = [j for j in case.get("tol_edges", []) if 1 <= j < len(edges)]
+        tev = [("t%d" % q, 10 ** 6 + q, ev[0][1], ev[0][0], 5.0, edges[j] - tol * 0.3) for q, j in enumerate(js)]
+        variants = [("explicit", {"mag_bins": mags, "tol": tol})] + ([("bound", {"tol": tol})] if bound else [])
+        res = {}
+        for vname, vkw in variants:
+            c2 = CSEPCatalog(data=list(events) + tev, region=region)
+            o1 = call(lambda: c2.spatial_magnitude_counts(**vkw))
+            o2 = call(lambda: c2.magnitude_counts(**vkw))
+            if not o1.ok or not o2.ok:
+                ctx.unexpected(o1 if not o1.ok else o2, "counts_with_tol:" + vname)
+                continue
+            g1, g2 = numpy.asarray(o1.value), numpy.asarray(o2.value)
+            res[vname] = (g1, g2)
+            ctx.count("tol_variant:" + vname)
+            if g1.shape != E.shape or g2.shape != want_mag.shape:
+                ctx.violation("tol_shape", {"variant": vname})
+                continue
+            if g1.sum() != n + len(tev) or g2.sum() != n + len(tev):
+                ctx.violation("tol_total_not_event_count", {"variant": vname, "smc": float(g1.sum()), "mc": float(g2.sum()), "n": n + len(tev)})
+            if not numpy.array_equal(g1.sum(axis=0), g2):
+                ctx.violation("tol_marginal_magnitude_mismatch", {"variant": vname, "smc_marginal": g1.sum(axis=0).tolist(), "mc": g2.tolist(), "tol": tol})
+            # validity: histogram minus the tolerance-free reference = the tol events, each in bin j-1 or j
+            rest = g2 - want_mag
+            lo = numpy.zeros(len(edges))
+            hi = numpy.zeros(len(edges))
+            for j in js:
+                hi[j] += 1
+                hi[j - 1] += 1
+            if numpy.any(rest < lo) or numpy.any(rest > hi) or rest.sum() != len(js):
+                ctx.violation("tol_moved_other_events", {"variant": vname, "rest": rest.tolist(), "tol_edges": js})
+        if len(res) == 2 and all(v[0].shape == E.shape for v in res.values()):
+            if not numpy.array_equal(res["explicit"][0], res["bound"][0]) or not numpy.array_equal(res["explicit"][1], res["bound"][1]):
+                ctx.violation("tol_region_bound_differs_from_explicit_bins", {"tol": tol, "explicit_mc": res["explicit"][1].tolist(), "bound_mc": res["bound"][1].tolist()})
     # ---- bin count == equivalent magnitude-range filter
     if n and not below:
         om = call(lambda: cat().magnitude_counts(**kw))
@@ -302,6 +340,9 @@ def cases(draw, max_events=40):
         ev.append([lon, lat, m])
     keyset = [tuple(e) for e in ev]
     case = {"family": "in_domain", "region": rc, "mags": mc, "events": ev, "has_dup": len(set(keyset)) < len(keyset), "has_edge": has_edge}
+    if mc["n"] >= 2 and draw(st.integers(0, 2)) == 0:
+        case["tol"] = draw(st.sampled_from([1e-8, 1e-6, 1e-4]))
+        case["tol_edges"] = draw(st.lists(st.integers(1, mc["n"] - 1), min_size=1, max_size=3))
     if draw(st.booleans()):
         case["family"] = "mixed"
         pos = []
